@@ -3,7 +3,9 @@
 Every corpus / generated file of a modelled format x every line truncation x seeded mutations is run through the
 real ``iodata.formats.<fmt>.load_one`` (called directly with a real ``LineIterator``: the exception class BEFORE the
 API funnel) followed by ``IOData(**result)``, and through the Lean reader (`rdr` stream of the driver).  Compared:
-outcome class, shapes of every array of the result, the constructor's verdict, and ``lit.lineno``.
+outcome class, shapes of every array of the result, the keys of the result dictionary whose value is not None,
+the constructor's verdict, the attributes that are not None on the constructed object, and ``lit.lineno``.
+C17 runs the same stream (`correspond_rdr`, smaller budget) as the tie for its "guaranteed => set" theorems.
 """
 
 from __future__ import annotations
@@ -23,6 +25,11 @@ EXT = {"xyz": (".xyz",), "sdf": (".sdf",), "mol2": (".mol2",), "pdb": (".pdb",),
 CLASSES = ["ValueError", "IndexError", "KeyError", "StopIteration", "TypeError", "LoadError", "OverflowError",
            "MemoryError", "NameError", "AttributeError"]
 EXTRA_KEYS = {"pdb": ["occupancies", "bfactors", "chainids"], "gromacs": ["velocities"]}
+# attribute names the Lean result object represents (order of `Rd.accessors`); `keys=` lists those present in the
+# reader's result dictionary with a value that is not None (any other key is printed as `?name`, which the model
+# never prints), `set=` those that are not None on the constructed IOData object
+ATTR_NAMES = ["atcoords", "atnums", "atcorenums", "atcharges", "atffparams", "bonds", "cellvecs", "cube", "extra",
+              "title"]
 ALLOC_LIMIT = 2**30
 PER_CASE_LIMIT = 5
 # characters of the modelled domain used by the substitution mutations
@@ -35,7 +42,8 @@ RULE = (
     "(delete/duplicate/swap line, character substitution incl. non-ASCII, numeric overflow/nan/underscore forms, "
     "count inflation, count -> 0/1/negative, block deletion, blank lines, cut inside a line): real "
     "formats.<fmt>.load_one on a LineIterator + IOData(**result) against the Lean reader: class, array shapes, "
-    "constructor verdict, lit.lineno; non-trivial = the outcome is not the unmodified file's. pynum: int()/float()/"
+    "the set of keys of the result dictionary whose value is not None, constructor verdict, the attributes that are "
+    "not None on the constructed object, lit.lineno; non-trivial = the outcome is not the unmodified file's. pynum: int()/float()/"
     "title()/isdigit()/split()/strip() on seeded strings of the modelled character domain. rctor: IOData(...) on "
     "seeded array shapes (also mutually inconsistent ones) against the validator model"
 )
@@ -83,12 +91,13 @@ def _summary(fmt, res) -> str:
         return ",".join(str(len(d[k])) for k in ks) or "-"
 
     cube = res.get("cube")
+    keys = [a for a in ATTR_NAMES if res.get(a) is not None] + sorted("?" + k for k in res if k not in ATTR_NAMES)
     return (
         f"atcoords={_shape(res.get('atcoords'))} atnums={_shape(res.get('atnums'))} "
         f"atcorenums={_shape(res.get('atcorenums'))} atcharges={lens(res.get('atcharges'))} "
         f"atffparams={lens(res.get('atffparams'))} extra={lens(res.get('extra'), EXTRA_KEYS.get(fmt, []))} "
         f"bonds={_shape(res.get('bonds'))} cellvecs={_shape(res.get('cellvecs'))} "
-        f"cube={_shape(cube.data) if cube is not None else '-'}"
+        f"cube={_shape(cube.data) if cube is not None else '-'} keys={','.join(keys) or '-'}"
     )
 
 
@@ -143,11 +152,14 @@ def real_outcome(fmt: str, text: str) -> dict:
                         ctor = "ok"
                     except Exception as exc:  # noqa: BLE001
                         ctor, obj = _cls(exc), None
+                    isset = "-"
                     if obj is not None:
                         bad = _inconsistent(obj)
                         if bad:
                             verdict, detail = "bad-object", bad
-                    return {"line": f"ok {summ} ctor={ctor} @{lineno}", "verdict": verdict, "detail": detail}
+                        isset = ",".join(a for a in ATTR_NAMES if getattr(obj, a, None) is not None) or "-"
+                    return {"line": f"ok {summ} ctor={ctor} set={isset} @{lineno}", "verdict": verdict,
+                            "detail": detail}
             except _Timeout:
                 return {"line": "timeout", "verdict": "timeout", "detail": ""}
             except BaseException as exc:  # noqa: BLE001
@@ -352,20 +364,20 @@ def _enc(text: str) -> str:
     return "u " + "".join(f"{ord(c):04x}" for c in text)
 
 
-def cases(ctx, fmt):
+def cases(ctx, fmt, trunc_cap=None, nmut=None):
     rng = ctx.rng
     out = []  # (text, label)
     for name, text in _sources(fmt):
         lines = text.splitlines(keepends=True)
         nl = len(lines)
         cuts = list(range(nl + 1))
-        cap = ctx.n(160, 4000)
+        cap = trunc_cap if trunc_cap is not None else ctx.n(160, 4000)
         if len(cuts) > cap:
             cuts = sorted(rng.sample(cuts, cap))
         for c in cuts:
             out.append(("".join(lines[:c]), f"{name}/trunc"))
-        nmut = ctx.n(60, 600) * (3 if ctx.escalated else 1)
-        for _ in range(nmut):
+        nm = (nmut if nmut is not None else ctx.n(60, 600)) * (3 if ctx.escalated else 1)
+        for _ in range(nm):
             kind = rng.choice(KINDS)
             new = mutate(lines, kind, rng)
             if rng.random() < 0.15:
@@ -471,10 +483,16 @@ def correspond(ctx):
     ctx.corr("pynum", reqs, outs, None, [r.split(" ")[1] + "/" + o.split(" ")[0] for r, o in zip(reqs, outs)])
     reqs, outs = _rctor_cases(ctx)
     ctx.corr("rctor", reqs, outs, None, outs)
+    correspond_rdr(ctx)
+
+
+def correspond_rdr(ctx, trunc_cap=None, nmut=None, report_failures=True):
+    """the `rdr:<fmt>` streams (shared by C07 and, with a smaller budget, C17; C17 leaves the reporting of parsers
+    that do not terminate / inconsistent objects to C07: there they only show as correspondence mismatches)"""
     total_files, total_cases = 0, 0
     with mp.get_context("fork").Pool(min(12, os.cpu_count() or 4), maxtasksperchild=500) as pool:
         for fmt in FORMATS:
-            cs = cases(ctx, fmt)
+            cs = cases(ctx, fmt, trunc_cap, nmut)
             total_files += len(_sources(fmt))
             base = {}
             # in batches: a parser that does not terminate costs PER_CASE_LIMIT seconds per input, so the rest of the
@@ -497,7 +515,9 @@ def correspond(ctx):
                 reqs.append(f"rdr {fmt} {_enc(text)}")
                 outs.append(r["line"])
                 classes.append(f"{fmt}/{label.split('/', 1)[1].split('+')[0]}/{' '.join(r['line'].split(' ')[:2]) if r['line'].startswith('err') else 'ok'}")
-                if r["verdict"] == "timeout":
+                if not report_failures:
+                    pass
+                elif r["verdict"] == "timeout":
                     ntimeout += 1
                     if ntimeout <= 2:
                         ctx.fail(f"does-not-terminate:{fmt}.load_one",
